@@ -211,6 +211,51 @@ def _conversions(ctx, e2e):
         ctx.maxi("P(T,V(T,P))-P over one grid step", e3)
         if e3 > 0.25:
             ctx.violation("volumes:P(V(T,P))!=P", f"P(T,V(T,P)) misses P by {e3:.3g} grid steps of pressure", case_id, sample)
+        if i % 2 == 0:
+            recheck_after_writing(ctx, e2e, calc, cfg, wd, case_id, sample)
+
+
+def recheck_after_writing(ctx, e2e, calc, cfg, wd, case_id, sample):
+    """History: writing every table (including p and v, whose arrays are held by the QHA layer) and then reading again."""
+    import os
+    vb, pb = calc.volume_base, calc.pressure_base
+    P0 = numpy.array(vb.pressures, copy=True)
+    V0 = numpy.array(pb.volumes, copy=True)
+    od = os.path.join(wd, "c06-out")
+    os.makedirs(od, exist_ok=True)
+    here = os.getcwd()
+    try:
+        os.chdir(od)
+        pb.write_variables(["cij", "bm_VRH", "vp", "v"])
+        vb.write_variables(["p", "cij_t", "G_VRH"])
+        if len(os.listdir(od)) > 3:
+            pb.write_variables(["v"])
+    except Exception as exc:
+        os.chdir(here)
+        if classify_exception(exc) == "code":
+            ctx.violation(f"write-raises:{type(exc).__name__}:{exc_site(exc)}", exc_text(exc), case_id, sample)
+        else:
+            ctx.harness_error("C06.write", exc)
+        return
+    finally:
+        os.chdir(here)
+    ctx.evaluation("history|write-then-read", (case_id, "w"))
+    P1, V1 = numpy.asarray(vb.pressures), numpy.asarray(pb.volumes)
+    if not numpy.array_equal(P0, P1, equal_nan=True):
+        ctx.violation("history:P(T,V)-changes-after-writing", f"volume_base.pressures differs after the tables were written (ratio {numpy.nanmedian(P1 / P0):.6g})", case_id, sample)
+    if not numpy.array_equal(V0, V1, equal_nan=True):
+        ctx.violation("history:V(T,P)-changes-after-writing", f"pressure_base.volumes differs after the tables were written (ratio {numpy.nanmedian(V1 / V0):.6g})", case_id, sample)
+    desired = numpy.asarray(pb.p_array, float)
+    got = numpy.asarray(pb.v2p(vb.pressures))
+    e2 = numpy.abs(got - desired[None, :]).max() / numpy.abs(desired).max()
+    if not (e2 <= 1e-10):
+        ctx.violation("history:identity-broken-after-writing", f"after writing, v2p(P)(T,P) deviates from P by {e2:.3g}", case_id, sample)
+    k0 = calc.modulus_keys[0]
+    ref, scale, _ = oracle_v2p(numpy.asarray(calc.modulus_isothermal[k0]), P0, desired)
+    got = numpy.asarray(pb.modulus_isothermal[k0])
+    fin = numpy.isfinite(ref)
+    if fin.any() and not (numpy.abs(got - ref)[fin] / scale[fin]).max() <= TOL:
+        ctx.violation("history:conversion-wrong-after-writing", "a modulus converted after the tables were written is no longer the value at P(T,V)=P", case_id, sample)
 
 
 def _range_check(ctx, e2e):
